@@ -1353,3 +1353,109 @@ func c07FallbackOnFilteredRecords(c *Check, rule string) {
 		c.Fail(rule, "FetchRecord:fallback-test", r.FI.Decl.Pos(), "undecided: no emptiness test guards the lookup at the organizational domain")
 	}
 }
+
+// ---- C11.R10: the table never drops a bucket that has a holder.
+// When the keyed table is over capacity BucketSet.take removes stale buckets. "Stale" by the time of the last TAKE says
+// nothing about permits that are still held (a remote delivery holds its destination permit for minutes): dropping
+// such a bucket gives the key a fresh one – the next message of that key is admitted beyond the limit – and the two
+// releases that follow hit the new semaphore, the second one an empty one (`panic: mismatched Release call`).
+// Decided: every removal from the bucket table (delete on the map field) outside Close stands under a condition that
+// reads a numeric field of the bucket entry which the take path increments and Release decrements (a holder count).
+func c11ReaperSparesHeldBuckets(c *Check, rule string) {
+	c.Rule(rule, "limiters.BucketSet: a bucket is removed from the table only under a test of a per-bucket holder count that taking increments and Release decrements – a bucket whose permit is still held is never replaced by a fresh one", 1)
+	p := c.P
+	pk := p.Pkg(limitersRel)
+	if pk == nil {
+		c.Fail(rule, "package", token.NoPos, "anchor unresolved")
+		return
+	}
+	info := pk.TypesInfo
+	// numeric fields of the entry type incremented / decremented anywhere in the package, by function
+	inc := map[*types.Var][]string{}
+	dec := map[*types.Var][]string{}
+	p.AllFuncs([]*packagesPkg{pk}, func(fi *FuncInfo) {
+		if fi.Decl.Body == nil || strings.HasSuffix(p.Fset.Position(fi.Decl.Pos()).Filename, "_test.go") {
+			return
+		}
+		ast.Inspect(fi.Decl.Body, func(x ast.Node) bool {
+			switch s := x.(type) {
+			case *ast.IncDecStmt:
+				if f := fieldOf(info, ast.Unparen(s.X)); f != nil {
+					if s.Tok == token.INC {
+						inc[f] = append(inc[f], refName(fi.Obj))
+					} else {
+						dec[f] = append(dec[f], refName(fi.Obj))
+					}
+				}
+			case *ast.AssignStmt:
+				if len(s.Lhs) == 1 {
+					if f := fieldOf(info, ast.Unparen(s.Lhs[0])); f != nil {
+						if s.Tok == token.ADD_ASSIGN {
+							inc[f] = append(inc[f], refName(fi.Obj))
+						} else if s.Tok == token.SUB_ASSIGN {
+							dec[f] = append(dec[f], refName(fi.Obj))
+						}
+					}
+				}
+			}
+			return true
+		})
+	})
+	n := 0
+	p.AllFuncs([]*packagesPkg{pk}, func(fi *FuncInfo) {
+		if fi.Decl.Body == nil || strings.HasSuffix(p.Fset.Position(fi.Decl.Pos()).Filename, "_test.go") {
+			return
+		}
+		if fi.Decl.Recv == nil || recvTypeName(fi.Decl) != "BucketSet" {
+			return
+		}
+		var stack []ast.Node
+		ast.Inspect(fi.Decl.Body, func(x ast.Node) bool {
+			if x == nil {
+				stack = stack[:len(stack)-1]
+				return true
+			}
+			stack = append(stack, x)
+			call, ok := x.(*ast.CallExpr)
+			if !ok || len(call.Args) != 2 {
+				return true
+			}
+			id, isId := ast.Unparen(call.Fun).(*ast.Ident)
+			if !isId || id.Name != "delete" || fieldOf(info, ast.Unparen(call.Args[0])) == nil {
+				return true
+			}
+			n++
+			c.SawFunc(fi.Name())
+			guarded := ""
+			for _, anc := range stack {
+				ifs, isIf := anc.(*ast.IfStmt)
+				if !isIf || !posIn(ifs.Body, call.Pos()) {
+					continue
+				}
+				ast.Inspect(ifs.Cond, func(y ast.Node) bool {
+					if se, ok := y.(*ast.SelectorExpr); ok {
+						if f := fieldOf(info, se); f != nil {
+							if b, isB := f.Type().Underlying().(*types.Basic); isB && b.Info()&types.IsInteger != 0 {
+								hasRel := false
+								for _, fn := range dec[f] {
+									if fn == "Release" || strings.Contains(fn, "elease") {
+										hasRel = true
+									}
+								}
+								if len(inc[f]) > 0 && hasRel {
+									guarded = f.Name()
+								}
+							}
+						}
+					}
+					return true
+				})
+			}
+			c.Hold(rule, "BucketSet."+refName(fi.Obj)+":delete"+itoa(n), call.Pos(), guarded != "", "line "+itoa(p0(p, call.Pos()))+": a bucket is removed from the table by age alone (time since the last take): a key whose permit has been held for longer than the reap interval gets a fresh bucket – the next message of that key is admitted although the limit is reached, and when both end the second Release finds an empty semaphore (panic: mismatched Release call)")
+			return true
+		})
+	})
+	if n == 0 {
+		c.Hold(rule, "BucketSet:no-removal", token.NoPos, true, "")
+	}
+}
